@@ -17,7 +17,8 @@ elaborated by `model.FromStream` (`Commands.elabFile`, accrual expansion include
 * `C05_layout_verdict`, `C05_layout_balance`, `C05_layout_balance_valued`, `C05_layout_print`, `C05_layout_print_exact` –
   two file systems (any include trees, any paths) whose journals are permutations of each other give the same `check`
   verdict, byte-identical `balance` output for every flag vector (valued: under `PricesDistinct`), and printed journals
-  that differ at most in the order within a (day, kind) block (`Layout.PrintEquiv`); if the relative order within
+  that differ at most in the order within a (day, kind) block (`Layout.PrintEquiv`; `C05_compare_equal_prints_alike`:
+  transactions that compare equal are printed alike up to their `@performance` line); if the relative order within
   every (date, kind) block is the same, the printed bytes are identical.  No well-formedness hypothesis is left:
   `C05_layout_wf` – every journal that loads satisfies `DirsWF` (the account registry's check in `transaction.Create`).
 * `C05_layout_arrival` – the files may arrive from the loader goroutines in any order (C19): the journal is a
@@ -25,9 +26,9 @@ elaborated by `model.FromStream` (`Commands.elabFile`, accrual expansion include
 * `C05_split` – the hypothesis made concrete (constructive side): a *layout* `t : LTree` is an include tree of files, each
   with a path and a list of items, an item being a directive or an `include` of a child file under some spelling of its
   path.  Distribute the directives of `ds` in ANY way over the files of ANY such tree (`t.reading.Perm ds`), write
-  every file with the functions of `journal.Print` (`Layout.dirText`, one `include "…"` line per child): on the file
-  system holding exactly these files `journalOf` succeeds, and yields the directives file by file, depth first —
-  a permutation of `ds`.  Hypotheses: the directives are printable (`PrintableDir`, C09: what `journal.Print` writes
+  every file with the functions of `journal.Print` (`Layout.dirText`, one `include "…"` line per child): on every
+  file system that holds these files under their paths (`C05_split_fs`: the one made of exactly these files does)
+  `journalOf` succeeds, and yields the directives file by file, depth first — a permutation of `ds`.  Hypotheses: the directives are printable (`PrintableDir`, C09: what `journal.Print` writes
   so that the scanner reads it back), every include spelling resolves — by `path.Join(filepath.Dir(includer), spelling)`
   — to the path of the included file, and the cleaned paths of the files are pairwise different.
   `C05_split_reports`: hence two layouts of the same directives give the same verdict, the same balance bytes, and
@@ -119,6 +120,13 @@ theorem C05_layout_print (fs fs' : FileSys) (f f' : Flags) (ds ds' : List Direct
     | error e' => rw [h1, h2] at hv; cases hv
     | ok st' => exact Or.inr ⟨rfl, rfl, printEquiv_of_perm ds ds' hp⟩
 
+/-- what `PrintEquiv` leaves open for the transactions, at text level: two transactions `transaction.Compare` does
+not distinguish are printed alike except for their `@performance` line (the comparison looks at date, description and
+postings). So between two layouts the block of transactions of a day changes at most by exchanging `@performance` lines
+among transactions that are otherwise printed identically. -/
+theorem C05_compare_equal_prints_alike (t u : Transaction) (h : cmpTx t u = .eq) (pad : Nat) :
+    printTx pad { t with targets := none } = printTx pad { u with targets := none } := cmpTx_eq_print h pad
+
 /-- **if the directives of every (date, kind) block keep their relative order, `knut print` writes the same bytes**:
 the printed journal is a function of the per-date, per-kind sequences — the only thing a layout can change in it is
 the relative order of directives that share date and kind -/
@@ -140,14 +148,20 @@ theorem C05_layout_arrival (files files' : List LoadedFile) (hp : files.Perm fil
 /-! ## The constructive side: any distribution of the directives over any include tree -/
 
 /-- **split**: the directives of `ds` distributed in any way over the files of an include tree and written with the
-printer's functions are loaded back as a permutation of `ds` — explicitly: file by file, depth first -/
-theorem C05_split (pad : Nat) (t : LTree) (ds : List Directive) (hassign : t.reading.Perm ds)
-    (hdirs : ∀ x ∈ ds, PrintableDir x)
+printer's functions are loaded back as a permutation of `ds` — explicitly: file by file, depth first — from every
+file system that holds these files under their paths (other files may lie around) -/
+theorem C05_split (pad : Nat) (t : LTree) (ds : List Directive) (fs : FileSys)
+    (hfs : ∀ n ∈ t.nodes, fs.read n.1 = some (fileBytes (n.2.text pad)))
+    (hassign : t.reading.Perm ds) (hdirs : ∀ x ∈ ds, PrintableDir x)
     (hedges : ∀ e ∈ t.edges, '"' ∉ e.2.1.toList ∧ resolve e.1 e.2.1 = e.2.2)
     (hpaths : (t.nodes.map (fun n => pathClean n.1)).Nodup) :
-    journalOf (t.fs pad) t.path = .ok t.journal ∧ t.journal.Perm ds := by
+    journalOf fs t.path = .ok t.journal ∧ t.journal.Perm ds := by
   have hperm : t.journal.Perm ds := (journal_perm_reading t).trans hassign
-  exact ⟨journalOf_layout pad t (fun x hx => hdirs x (hperm.mem_iff.mp hx)) hedges hpaths, hperm⟩
+  exact ⟨journalOf_layout pad t fs hfs (fun x hx => hdirs x (hperm.mem_iff.mp hx)) hedges hpaths, hperm⟩
+
+/-- such a file system exists: the one made of exactly the files of the layout (`LTree.fs`) -/
+theorem C05_split_fs (pad : Nat) (t : LTree) (hpaths : (t.nodes.map (fun n => pathClean n.1)).Nodup) :
+    ∀ n ∈ t.nodes, (t.fs pad).read n.1 = some (fileBytes (n.2.text pad)) := fs_reads pad t hpaths
 
 /-- the exclusion of same-day price clashes is a property of the multiset of directives -/
 theorem C05_prices_distinct_perm {ds ds' : List Directive} (hp : ds.Perm ds') (h : PricesDistinct ds) : PricesDistinct ds' := by
@@ -169,8 +183,8 @@ theorem C05_split_reports (pad pad' : Nat) (t t' : LTree) (ds : List Directive)
      (Cmd.run .print (t.fs pad) f = .ok (print (Builder.ofList t.journal).build) ∧
       Cmd.run .print (t'.fs pad') f' = .ok (print (Builder.ofList t'.journal).build) ∧
       PrintEquiv (Builder.ofList t.journal).build (Builder.ofList t'.journal).build)) := by
-  obtain ⟨h, hp⟩ := C05_split pad t ds hassign hdirs hedges hpaths
-  obtain ⟨h', hp'⟩ := C05_split pad' t' ds hassign' hdirs hedges' hpaths'
+  obtain ⟨h, hp⟩ := C05_split pad t ds _ (C05_split_fs pad t hpaths) hassign hdirs hedges hpaths
+  obtain ⟨h', hp'⟩ := C05_split pad' t' ds _ (C05_split_fs pad' t' hpaths') hassign' hdirs hedges' hpaths'
   rw [← hf] at h
   rw [← hf'] at h'
   have hpp : t.journal.Perm t'.journal := hp.trans hp'.symm
@@ -201,10 +215,12 @@ example : exTree.nodes.map (fun n => (n.1, (n.2.text 14).toList)) =
 
 /-- `C05_split` applies to the three-file layout: the loader follows `./inc/a.knut` and, from there, `b.knut` -/
 theorem exTree_journal : journalOf (exTree.fs 14) "main.knut" = .ok exTree.journal ∧ exTree.journal.Perm xDirs :=
-  C05_split 14 exTree xDirs (by decide +kernel) xDirs_printable (by decide +kernel) (by decide +kernel)
+  C05_split 14 exTree xDirs _ (C05_split_fs 14 exTree (by decide +kernel)) (by decide +kernel) xDirs_printable (by decide +kernel)
+    (by decide +kernel)
 
 theorem exOne_journal : journalOf (exOne.fs 0) "all.knut" = .ok exOne.journal ∧ exOne.journal.Perm xDirs :=
-  C05_split 0 exOne xDirs (by decide +kernel) xDirs_printable (by decide +kernel) (by decide +kernel)
+  C05_split 0 exOne xDirs _ (C05_split_fs 0 exOne (by decide +kernel)) (by decide +kernel) xDirs_printable (by decide +kernel)
+    (by decide +kernel)
 
 /-- the loaded order is file by file, depth first: neither the order of `xDirs` nor its reverse -/
 example : exTree.journal = [xDirs[2]!, xDirs[3]!, xDirs[5]!, xDirs[1]!, xDirs[4]!, xDirs[0]!] ∧
@@ -260,11 +276,17 @@ applies, `print` writes the same bytes -/
 def exOne' : LTree := .node "elsewhere/journal.knut" exOne.items
 
 theorem exOne'_journal : journalOf (exOne'.fs 30) "elsewhere/journal.knut" = .ok exOne'.journal ∧ exOne'.journal.Perm xDirs :=
-  C05_split 30 exOne' xDirs (by decide +kernel) xDirs_printable (by decide +kernel) (by decide +kernel)
+  C05_split 30 exOne' xDirs _ (C05_split_fs 30 exOne' (by decide +kernel)) (by decide +kernel) xDirs_printable (by decide +kernel)
+    (by decide +kernel)
 
 example : Cmd.run .print (exOne.fs 0) { path := "all.knut" } = Cmd.run .print (exOne'.fs 30) { path := "elsewhere/journal.knut" } :=
   C05_layout_print_exact _ _ { path := "all.knut" } { path := "elsewhere/journal.knut" } _ _ exOne_journal.1 exOne'_journal.1
     (List.Perm.refl _) (fun _ => ⟨rfl, rfl, rfl, rfl, rfl⟩)
+
+/-- two transactions that differ in their `@performance` targets only compare equal (and are distinct) -/
+example : cmpTx ⟨2, "buy", postingBuild xBank xFood "CHF" 30, some ["CHF"]⟩ ⟨2, "buy", postingBuild xBank xFood "CHF" 30, none⟩ = .eq ∧
+    (⟨2, "buy", postingBuild xBank xFood "CHF" 30, some ["CHF"]⟩ : Transaction) ≠ ⟨2, "buy", postingBuild xBank xFood "CHF" 30, none⟩ := by
+  decide +kernel
 
 /-- the split theorem for two layouts at once -/
 example (f f' : Flags) (hf : f.path = "main.knut") (hf' : f'.path = "all.knut") :
